@@ -1,6 +1,7 @@
 import CifModel.Lemmas.ParseCBDupX
 import CifModel.Lemmas.ParseCBDupPlain
 import CifModel.Lemmas.ParseCBDupCut
+import CifModel.Lemmas.ParseCBDupSub
 import CifModel.Props.C15
 import CifModel.Lemmas.ParseCBFuel
 /-
@@ -95,6 +96,18 @@ theorem C15_dup_stop_semantics_store (p : Prog) (norm : Str → Str) (d : Doc) (
   obtain ⟨h1, h2⟩ := xDocD_c p norm d hw hdom
   exact ⟨h2, h1⟩
 
+/-- **The callbacks delivered are callbacks the document owes, in document order — with duplicates, for EVERY program.**  For every
+    well-formed document (any repetition of codes and names), every handler program and an accepting error callback: set the error
+    callbacks aside and abstract from the payload that duplicates can change (`absEv`: the code of a container handle — a reopened
+    container carries its first spelling —, the names of a loop handle and the items of packet_end — a loop that lost columns carries
+    fewer): what remains of the callbacks of the parse is a sublist of the document's callbacks `docEvents true d`, abstracted the same
+    way.  Item and data-name callbacks are compared with their names and values: a program and the duplicate recovery only ever make
+    the parser LEAVE OUT callbacks; nothing is reordered, repeated or invented. -/
+theorem C15_dup_events_sublist (p : Prog) (norm : Str → Str) (d : Doc) (hw : wfDoc d = true) :
+    (view (parseCBD p norm true (tokensOf d)).1).Sublist ((docEvents true d).map absEv) := by
+  rw [C15_dup_structural_any p norm true d hw, ← docA_eq d hw]
+  exact xDocD_subA p norm true d
+
 /-- the two descriptions agree where both apply: with all-continue handlers the specification for every program stores `dupDenote` -/
 theorem C15_dup_cut_extends_mirror (norm : Str → Str) (d : Doc) (hok : okDoc norm d = true) (hw : wfDoc d = true) :
     (cDocD allContP norm d).cif = dupDenote norm d := by
@@ -141,5 +154,11 @@ example : (parseCBD (C15_dev2 2 (-1) 9 7) C15d_lower true (tokensOf C15d_doc)).2
     ∧ C15d_storeOK (C15_dev2 2 (-1) 9 7) C15d_doc = true ∧ C15d_storeOK (C15_dev2 4 (-2) 10 END) C15d_doc = true := by decide +kernel
 -- the reopened frame and block of `C15_dupDoc` (Props/C15.lean) under a skipping and a stopping program
 example : C15d_storeOK (C15_dev2 3 (-1) 8 (-2)) C15_dupDoc = true ∧ C15d_storeOK (C15_dev1 6 7) C15_dupDoc = true := by decide +kernel
+
+-- the events theorem on the document above: three error callbacks are set aside; what remains is shorter than the document's
+-- callbacks (the duplicate scalar has no item handler, the dropped columns no item callbacks)
+example : (view (parseCBD allContP C15d_lower true (tokensOf C15d_doc)).1).length + 3 = (parseCBD allContP C15d_lower true (tokensOf C15d_doc)).1.length
+    ∧ (view (parseCBD allContP C15d_lower true (tokensOf C15d_doc)).1).length < ((docEvents true C15d_doc).map absEv).length := by
+  decide +kernel
 
 end CifModel
